@@ -64,10 +64,16 @@ func (fc *FnCtx) execCallWith(fr *frame, st *State, c *ssa.CallCommon, fnv Val, 
 	saveArgs := fc.curArgs
 	fc.curArgs = append(append([]Val(nil), args...), fnv)
 	defer func() { fc.curArgs = saveArgs }()
-	fc.pointClauses(st, "before_call", anchor, pos)
+	// the actual arguments of the call are visible to the point clauses as arg0, arg1, ...
+	// (for a static method call arg0 is the receiver)
+	argVars := map[string]Val{}
+	for i, a := range args {
+		argVars[fmt.Sprintf("arg%d", i)] = a
+	}
+	fc.pointClausesV(st, "before_call", anchor, pos, argVars)
 	v, ok := fc.execCallWith1(fr, st, c, fnv, args, instr, pos)
 	if ok {
-		vars := map[string]Val{}
+		vars := copyVars(argVars)
 		if v.T != "" {
 			vars["result"] = v
 		}
